@@ -32,7 +32,7 @@ if mods:
         'LbzVerif.Props.C05.Parse.magic_enforced',
         'LbzVerif.Props.C05.Parse.eof_rule',
     ])
-inproc.run_libs(ck, ['w12_emit', 'w11_prefix', 'w10_mtf'])
+inproc.run_libs(ck, ['w12_emit', 'w11_prefix', 'w10_mtf', 'w15_retrieve'])
 exe = ck.build_lbzip2(asan=False)
 evals = nontriv = 0
 samples = []
